@@ -35,7 +35,9 @@ package merkleblock
 //@   ensures result != nil ==> !m.bad && int(m.hashesUsed) == len(m.finalHashes)
 //@   ensures result != nil ==> (m.bitsUsed + 7) / 8 == (u32(len(m.bits)) + 7) / 8
 //@   loop 1 invariant height <= 32 && m.numTx == old(m.numTx) && m.numTx != 0
+//@   loop 1 invariant height >= 1 ==> ((m.numTx + (u32(1) << (height - 1)) - 1) >> (height - 1)) > 1
 //@   loop 1 decreases 33 - int(height)
+//@   assert after traverseAndExtract#1: $arg1 == height && $arg2 == 0 && ((m.numTx + (u32(1) << height) - 1) >> height) <= 1 && (height >= 1 ==> ((m.numTx + (u32(1) << (height - 1)) - 1) >> (height - 1)) > 1)
 
 //@ func merkleblock.NewMerkleBlockFromMsg
 //@   requires len(msg.Flags) < 536870912
